@@ -5,6 +5,7 @@
 From Coq Require Import List String Ascii ZArith Bool.
 From GfaV Require Import Base.Py Gen.K_cigar Gen.K_fromto Model.Align Model.Link Proofs.CigarP Proofs.LinkP.
 Import ListNotations.
+From GfaV Require Import Model.Graph Proofs.GraphP Proofs.LinkGraphP.
 Open Scope string_scope.
 
 (* complement twice gives the CIGAR back, for every mix of M I D P = X H (the claim's codes) *)
@@ -60,3 +61,39 @@ Example C12_witness :
   link_wf l = true /\ aln_plain (l_ov l) = true /\
   link_complement l = Ok (mkLink "B" "+" "A" "-" (ACigar [(4%Z, "H"); (3%Z, "M"); (1%Z, "I"); (2%Z, "M")])).
 Proof. vm_compute. repeat split. Qed.
+
+
+(* ---------- in the Gfa ---------- *)
+(* adding the complement of a stored link adds nothing and raises nothing; a link that meets a stored link on its oriented
+   pair without being its complement is refused as a duplicate *)
+Theorem C12_adding_the_complement_adds_nothing : forall s l prev,
+  g_rk l = KL -> duplicate_of s l = Some prev -> g_virtual prev = false ->
+  is_complement (link_value l) (link_value prev) = true -> connect s l = Ok s.
+Proof. exact complement_of_stored_link_adds_nothing. Qed.
+Print Assumptions C12_adding_the_complement_adds_nothing.
+
+Theorem C12_another_link_on_the_pair_is_refused : forall s l prev,
+  g_rk l = KL -> duplicate_of s l = Some prev -> g_virtual prev = false ->
+  is_complement (link_value l) (link_value prev) = false -> connect s l = Err (G ENotUnique).
+Proof. exact other_link_on_a_stored_pair_is_refused. Qed.
+Print Assumptions C12_another_link_on_the_pair_is_refused.
+
+(* lookup by oriented segment pair: what it returns is a link of the Gfa compatible with the step, in direct or in
+   complement form, and it misses no such link *)
+Theorem C12_lookup_is_sound : forall s a b ov x,
+  search_link s a b ov = Some x ->
+  In x (lines s) /\ g_rk x = KL /\ is_compatible (link_value x) a b ov true = Ok true.
+Proof. exact search_link_sound. Qed.
+Print Assumptions C12_lookup_is_sound.
+
+Theorem C12_lookup_is_complete : forall s a b ov x,
+  In x (lines s) -> g_rk x = KL -> (nth_s 0 (g_pos x) = fst a \/ nth_s 2 (g_pos x) = fst a) ->
+  is_compatible (link_value x) a b ov true = Ok true -> search_link s a b ov <> None.
+Proof. exact search_link_complete. Qed.
+Print Assumptions C12_lookup_is_complete.
+
+Theorem C12_forwards_or_reversed : forall l a b ov,
+  is_compatible l a b ov true = Ok true ->
+  is_compatible_direct l a b ov = true \/ is_compatible_complement l a b ov = Ok true.
+Proof. exact compatible_is_direct_or_complement. Qed.
+Print Assumptions C12_forwards_or_reversed.
